@@ -1,3 +1,4 @@
+import DaskModel.Model.BagReduce
 /-
 K9 for bags: `dask.bag.core.groupby_tasks` (staged task shuffle) and `groupby_disk` (one-stage).
 
@@ -11,9 +12,12 @@ Python                                              Lean
 `stages`, `k` (computed with `math.log`, `**`)      parameters; every theorem needs only `npartitions ≤ k^stages`,
                                                     which the harness checks for the values the real code computes
 `toolz.groupby(grouper, pluck(1, part))` → `dict.items()`    `groupByKey` (association list in first-occurrence order)
+`partition` (blocks of `blocksize` elements, `groupby`, `p.append`) + `collect`   `blockToFile`, `partitionToFile`, `diskFile`, `groupbyDiskBlocks`
+                                                    (`groupbyDisk` is the block-free characterisation; `groupby_disk_blocks_spec` relates them)
 Import-free (linked into the native driver).
 -/
 namespace Dask.BagShuffle
+open Dask.BagReduce
 
 /-- `dask.utils.digit(n, j, k)` -/
 def digit (n j k : Nat) : Nat := n / k ^ j % k
@@ -56,5 +60,30 @@ def groupbyDisk (hash : Nat → Nat) (grouper : α → Nat) (nout : Nat) (parts 
     List (List (Nat × List α)) :=
   (List.range nout).map fun t =>
     groupByKeyOrdered grouper (parts.flatten.filter fun x => hash (grouper x) % nout == t)
+
+/-! ### the disk shuffle block by block -/
+
+section Disk
+variable {α : Type}
+
+/-- one block of `partition(grouper, sequence, npartitions, p, nelements)`: `d = groupby(grouper, block)`, then
+    `d2[hash(k) % npartitions].extend(v)` for every key in dict order — the elements appended to file `t` -/
+def blockToFile (hash : Nat → Nat) (grouper : α → Nat) (nout t : Nat) (block : List α) : List α :=
+  (groupByKeyOrdered grouper block).flatMap fun kv => if hash kv.1 % nout == t then kv.2 else []
+
+/-- what one input partition appends to file `t`: block after block (`partition_all(nelements, sequence)`) -/
+def partitionToFile (hash : Nat → Nat) (grouper : α → Nat) (nout nelements t : Nat) (part : List α) : List α :=
+  (partitionAll nelements part).flatMap (blockToFile hash grouper nout t)
+
+/-- the content of partd file `t` after all `partition` tasks ran in partition order -/
+def diskFile (hash : Nat → Nat) (grouper : α → Nat) (nout nelements t : Nat) (parts : List (List α)) : List α :=
+  parts.flatMap (partitionToFile hash grouper nout nelements t)
+
+/-- `groupby_disk` as the code runs it: `collect` groups the content of file `t` -/
+def groupbyDiskBlocks (hash : Nat → Nat) (grouper : α → Nat) (nout nelements : Nat) (parts : List (List α)) :
+    List (List (Nat × List α)) :=
+  (List.range nout).map fun t => groupByKeyOrdered grouper (diskFile hash grouper nout nelements t parts)
+
+end Disk
 
 end Dask.BagShuffle
